@@ -40,6 +40,12 @@ CHECKS = {
  "C15": ("reference-model monitor for sph_j0/j1/j2 on every type incl. plain floats over a stratified sweep of [-50,50] + special points; truth from Maclaurin series / series division; dual real part vs float instance",
          "Runtime monitoring: ~4e5 (quick) / ~3e7 (thorough) evaluations over 47 types (f32/f64, orders up to 6), 10 argument regions incl. denormals, both sides of the series switch, 10^-k, zeros of j_n, negative sweep.",
          "tolerance relative to |true part| plus the absolute level 1/max(|x|,1) with binomial growth per derivative; K=32 (max observed ratio ~10)", "DESIGN.md 3/C15"),
+ "C11": ("differential monitors on the four field-compatible types: RealField constants vs the float constants (bitwise); every ComplexField/RealField method vs the generic dual operation it stands for (bitwise) and vs the float method on the real part; selection methods return an operand with its own parts; single-lane SimdValue round trips",
+         "Runtime monitoring: ~6e5 (quick) / ~4e7 (thorough) method observations over 18 instantiations (f32/f64, static 1..4, dynamic), 75 constants/methods/monitors incl. powf/powc/log with dual arguments, copysign with signed zeros, min/max ties, replace by/into constants (absent parts), unchecked SIMD variants.",
+         "real part within 0 ulp of the float method for single float operations, stated ulps for quotients/powers; hypot also against the model", "DESIGN.md 3/C11"),
+ "C13": ("behavioural conversion monitor (lossless widening, identity round trip, membership <=> checked narrowing, per-part rounding, float lift/extract, nalgebra convert/try_convert/cast) + sanitizer lanes for the memory clause: Miri (UB, uninitialised reads, OOB, leaks) and valgrind memcheck on a dedicated workload incl. heap-owning nested element types",
+         "Runtime monitoring + sanitizers: ~7e4 (quick) / ~7e6 (thorough) conversion observations over 27 type pairs, static dims 0..6 and dynamic 0..6, present/absent parts, non-symmetric storage; Miri 16 shards x 6 (quick) / 150 (thorough) workload cases, valgrind 8 x 150 / 16 x 4000 cases; a sanitizer report is a VIOLATION with the tool log as replay file.",
+         "Miri cannot prove absence of UB on paths the workload does not drive; simba reports every finite f64 as member of f32", "DESIGN.md 3/C13"),
  "C01": ("reference-model monitor: every call of every elementary function on every type vs power-series Taylor composition, stratified random inputs",
          "Runtime monitoring: the real functions are executed on ~3e5 (quick) / ~1e7 (thorough) generated operands over 51 type instantiations and every argument region; each result part is compared with an independent truncated-Taylor-algebra model within 32*u*sum|terms|. Holds on what was observed, not a proof.",
          "trusts libm for g(x0); tolerance constant calibrated on the unchanged tree (max observed ratio < 10)", "DESIGN.md 3/C01"),
